@@ -33,12 +33,12 @@ Proof. exact expansion_chars_like_with_escape. Qed.
 
 (* the model of Pattern::parse_with_config is total on its domain: the emitted regex is always inside the modelled syntax and no fuel runs out *)
 Theorem compile_has_definite_outcome :
-  forall (cfg : config) (p : list pchar) (a : ast), parse_pattern p = Some a -> closed_complements a = true -> (exists b : body, compile cfg p = COk b) \/ (exists e : perr, compile cfg p = CErr e).
+  forall (cfg : config) (p : list pchar) (a : ast), parse_pattern p = Some a -> (exists b : body, compile cfg p = COk b) \/ (exists e : perr, compile cfg p = CErr e).
 Proof. exact compile_total. Qed.
 
 (* the emitted regex string, read by the regex syntax, is the intended structure (every special character of either language is escaped where needed); an error is reported exactly when no such structure exists *)
 Theorem regex_escaping_complete :
-  forall (cfg : config) (a : ast), closed_complements a = true -> match ast_fmt cfg a with | EOk s => parse_rx s = match rx_of_ast cfg a with Some r => RxOk r | None => RxErr end | EErr _ => rx_of_ast cfg a = None end.
+  forall (cfg : config) (a : ast), match ast_fmt cfg a with | EOk s => parse_rx s = match rx_of_ast cfg a with Some r => RxOk r | None => RxErr end | EErr _ => rx_of_ast cfg a = None end.
 Proof. exact fmt_regex_parses_back. Qed.
 
 (* the regex crate's ASCII class ranges are the POSIX-locale classes of the specification *)
@@ -73,8 +73,18 @@ Proof. exact dmatch_iff. Qed.
 
 (* a compiled pattern anchored at both ends (case) accepts exactly the strings POSIX notation denotes; compilation fails exactly for invalid patterns *)
 Theorem case_pattern_matches_iff_denoted :
-  forall (p : list pchar) (a : ast) (s : str), parse_pattern p = Some a -> closed_complements a = true -> match compile case_config p with | COk b => pat_is_match case_config b s = true <-> Matches a s | CErr _ => valid_ast a = false | CUnsup | CFuel => False end.
-Proof. exact case_pattern_correct_closed. Qed.
+  forall (p : list pchar) (a : ast) (s : str), parse_pattern p = Some a -> match compile case_config p with | COk b => pat_is_match case_config b s = true <-> Matches a s | CErr _ => valid_ast a = false | CUnsup | CFuel => False end.
+Proof. exact case_pattern_correct_any. Qed.
+
+(* Config::literal_period in the fully anchored configuration (pathname expansion): the string is accepted iff the pattern denotes it and, if the string starts with a period, the pattern starts with a literal period; nothing else in the string (no slash) is special *)
+Theorem leading_period_needs_literal_period :
+  forall (p : list pchar) (a : ast) (s : str), parse_pattern p = Some a -> match compile period_config p with | COk b => pat_is_match period_config b s = true <-> Matches a s /\ (starts_with [c_dot] s = true -> starts_with_literal_dot a = true) | CErr _ => valid_ast a = false | CUnsup | CFuel => False end.
+Proof. exact period_pattern_correct. Qed.
+
+(* with literal_period and an anchored start, a non-empty pattern that does not start with a literal period never matches a string with a leading period (the empty pattern is a literal and matches the empty prefix) *)
+Theorem leading_period_blocks_anchored_match :
+  forall (cfg : config) (p : list pchar) (a : ast) (b : body) (s : str), literal_period cfg = true -> anchor_begin cfg = true -> parse_pattern p = Some a -> a <> [] -> compile cfg p = COk b -> starts_with [c_dot] s = true -> starts_with_literal_dot a = false -> pat_is_match cfg b s = false /\ pat_find cfg b s = None.
+Proof. exact period_blocks_anchored. Qed.
 
 (* the four forms # ## % %% remove exactly the shortest / longest matching prefix / suffix (find for three of them, the rfind loop for %) *)
 Theorem trim_forms_remove_shortest_longest :
@@ -155,6 +165,8 @@ Print Assumptions greedy_find_is_longest.
 Print Assumptions lazy_find_is_shortest.
 Print Assumptions matcher_decides_denotation.
 Print Assumptions case_pattern_matches_iff_denoted.
+Print Assumptions leading_period_needs_literal_period.
+Print Assumptions leading_period_blocks_anchored_match.
 Print Assumptions trim_forms_remove_shortest_longest.
 Print Assumptions pattern_oracle_accepts_model.
 Print Assumptions trim_oracle_accepts_model.
